@@ -10,6 +10,7 @@ import sys
 import tempfile
 
 from common import main
+from common import budget as common_budget
 import build
 import frames
 
@@ -171,6 +172,26 @@ def evaluate(case):
                     for kname, v in exp.items():
                         if abs(got_s[kname] - v) > 1e-6:
                             return f"summarize_error ALL/{col}/{kname} = {got_s[kname]}, expected {v}", seen
+            # ---- selections: scene / area / frame / label pick exactly the row pairs one of whose rows carries that value
+            scene_of = []
+            for si, scene in enumerate(case["scenes"]):
+                for fi, f in enumerate(scene):
+                    pass
+            full = an.df
+            keys = sorted(set(full.index.get_level_values(0)))
+            for col, values in (("scene", range(len(case["scenes"]))), ("area", range(case.get("ndiv", 1))), ("frame", range(max(len(sc) for sc in case["scenes"]))),
+                                ("label", ["car", "pedestrian"])):
+                for v in values:
+                    want = [k for k in keys if any(full.loc[(k, side), col] == v for side in ("ground_truth", "estimation"))]
+                    got_sel = sorted(set(an.get(**{col: v}).index.get_level_values(0)))
+                    if got_sel != want:
+                        return f"selection {col}={v!r} returns row pairs {got_sel}, the pairs carrying that value are {want}", seen
+            for si in range(len(case["scenes"])):
+                sel = an.get(scene=si)
+                n_tp = an.get_num_tp(df=sel) if len(sel) else 0
+                want_tp = sum(1 for k in keys if full.loc[(k, "estimation"), "status"] == "TP" and full.loc[(k, "estimation"), "scene"] == si)
+                if n_tp != want_tp:
+                    return f"selection scene={si}: {n_tp} TP, the scene's frames hold {want_tp}", seen
             ratio = an.summarize_ratio()
             vals = ratio.to_numpy().reshape(-1)
             if not all(0.0 <= v <= 1.0 for v in vals):
@@ -226,7 +247,7 @@ def search(item, seed):
     rng = random.Random(seed or 20260928)
     budget = 60 if item["name"] == "bounded-native-search" else 120
     known_seen = set()
-    for _ in range(budget):
+    for _ in range(common_budget(budget)):
         case = rand_case(rng)
         msg, seen = evaluate(case)
         known_seen |= seen
